@@ -217,9 +217,11 @@ def execute(binname, scen_path, ev_path, release=False, hang_secs=20):
     per_op_bad = {}
     start = 0
     env = dict(os.environ, RUST_BACKTRACE="0")
+    dead_ops = []
     while start < total:
         r = subprocess.run([bin_path(binname, release), scen_path, ev_path, "--from", str(start),
-                            "--hang-secs", str(hang_secs)], env=env, capture_output=True, text=True)
+                            "--hang-secs", str(hang_secs)] + (["--skip-ops", ",".join(dead_ops)] if dead_ops else []),
+                           env=env, capture_output=True, text=True)
         if r.returncode == 0:
             break
         if r.returncode == 4:
@@ -247,10 +249,14 @@ def execute(binname, scen_path, ev_path, release=False, hang_secs=20):
         start = done + 1
         key = scn.get("op")
         per_op_bad[key] = per_op_bad.get(key, 0) + 1
-        if per_op_bad[key] >= 5:
-            # a broken loop must not turn a short check into hours: skip the rest of this operation
+        if isinstance(key, str) and per_op_bad[key] >= 4 and key not in dead_ops:
+            # a broken loop must not turn a short check into hours: every remaining scenario of this operation, wherever
+            # it sits in the file, is answered "skipped" by the executor itself from now on
+            dead_ops.append(key)
+        if not isinstance(key, str) and per_op_bad[key] >= 6:
+            # lines without an operation name (whole histories): after six hangs / crashes the rest of the file is skipped
             with open(ev_path, "a") as fh:
-                while start < total and json.loads(scen_lines[start]).get("op") == key:
+                while start < total:
                     s2 = json.loads(scen_lines[start])
                     s2["st"] = "skipped"
                     s2["pan"] = []
